@@ -296,7 +296,7 @@ func c14CheckBatch(run *vlib.Run, cases []schemaCase) (map[int][]vlib.Violation,
 // drawC14Veneers draws the veneers whose effect the converters must invert:
 // options promoted to constructor arguments (required and optional scalar
 // fields) and lists of unions exposed as one appending option per variant.
-func drawC14Veneers(rt *rapid.T, sc schemaCase) []string {
+func drawC14Veneers(rt *rapid.T, sc schemaCase, multi *c14Multi) []string {
 	m := sc.Model
 	builders, options := map[string][]string{}, map[string][]string{}
 	// promoting an OPTIONAL field is a listed finding (the converter
@@ -326,6 +326,11 @@ func drawC14Veneers(rt *rapid.T, sc schemaCase) []string {
 			builders[pkg] = append(builders[pkg], fmt.Sprintf("  - promote_options_to_constructor:\n      by_object: %s\n      options: [%s]\n", d.Name, strings.Join(promoted, ", ")))
 		}
 	}
+	if multi != nil {
+		pkg := sc.pkgOf(multi.Def)
+		builders[pkg] = append([]string{multi.builderRules()}, builders[pkg]...)
+		options[pkg] = append([]string{multi.optionRules()}, options[pkg]...)
+	}
 	pkgs := map[string]bool{}
 	for p := range builders {
 		pkgs[p] = true
@@ -350,6 +355,143 @@ func drawC14Veneers(rt *rapid.T, sc schemaCase) []string {
 		files = append(files, file)
 	}
 	return files
+}
+
+// c14Multi: one object gets two builders (duplicate veneer twice, the original
+// omitted), told apart by a constant each constructor writes (initialize
+// veneer) into a field that has no option any more. The converter of an object
+// holding such values must pick, for each of them, the builder whose constants
+// it matches.
+type c14Multi struct {
+	Def   string
+	Field string
+	// Shared: the object also has a schema constant, written first by both
+	// constructors
+	Shared bool
+}
+
+func (mb c14Multi) builderRules() string {
+	return fmt.Sprintf("  - duplicate: {by_name: %s, as: %sFirst}\n  - duplicate: {by_name: %s, as: %sSecond}\n  - omit: {by_name: %s}\n  - initialize: {by_name: %sFirst, set: [{property: %s, value: first}]}\n  - initialize: {by_name: %sSecond, set: [{property: %s, value: second}]}\n",
+		mb.Def, mb.Def, mb.Def, mb.Def, mb.Def, mb.Def, mb.Field, mb.Def, mb.Field)
+}
+
+func (mb c14Multi) optionRules() string {
+	return fmt.Sprintf("  - omit: {by_builder: %sFirst.%s}\n  - omit: {by_builder: %sSecond.%s}\n", mb.Def, mb.Field, mb.Def, mb.Field)
+}
+
+// drawC14Multi picks an object other objects refer to, gives it the
+// discriminating field (and, half of the time, a shared constant before it)
+// and rewrites the documents so that every value of that object belongs to one
+// of the two builders.
+func drawC14Multi(rt *rapid.T, sc *schemaCase) *c14Multi {
+	m := sc.Model
+	referred := map[string]bool{}
+	for _, d := range m.Defs {
+		if d.Type.Kind != smodel.KStruct {
+			continue
+		}
+		for _, f := range d.Type.Fields {
+			t := f.Type
+			if (t.Kind == smodel.KArray || t.Kind == smodel.KMap) && t.Elem != nil {
+				t = *t.Elem
+			}
+			if t.Kind == smodel.KRef && !t.Nullable && t.Ref != d.Name {
+				if td := m.Def(t.Ref); td != nil && td.Type.Kind == smodel.KStruct {
+					referred[t.Ref] = true
+				}
+			}
+		}
+	}
+	var candidates []string
+	for _, d := range m.Defs {
+		if !referred[d.Name] {
+			continue
+		}
+		clash := false
+		for _, f := range d.Type.Fields {
+			if f.Name == "queryMode" || f.Name == "datasourceKind" {
+				clash = true
+			}
+		}
+		// variants of unions keep their builders: the union's options choose them
+		for _, f := range d.Type.Fields {
+			if f.Type.Const != nil && (f.Name == "kind" || f.Name == "type") {
+				clash = true
+			}
+		}
+		if !clash {
+			candidates = append(candidates, d.Name)
+		}
+	}
+	if len(candidates) == 0 {
+		return nil
+	}
+	mb := &c14Multi{Def: rapid.SampledFrom(candidates).Draw(rt, "multidef"), Field: "queryMode", Shared: rapid.Bool().Draw(rt, "multishared")}
+	for i := range m.Defs {
+		if m.Defs[i].Name != mb.Def {
+			continue
+		}
+		var extra []smodel.Field
+		if mb.Shared {
+			extra = append(extra, smodel.Field{Name: "datasourceKind", Required: true, Type: smodel.T{Kind: smodel.KString, Const: smodel.Raw("prom")}})
+		}
+		extra = append(extra, smodel.Field{Name: "queryMode", Required: true, Type: smodel.T{Kind: smodel.KString}})
+		m.Defs[i].Type.Fields = append(extra, m.Defs[i].Type.Fields...)
+	}
+	for i, d := range sc.Docs {
+		v, err := smodel.ParseJSON(d.JSON)
+		def := m.Def(d.Def)
+		if err != nil || def == nil {
+			continue
+		}
+		c14PatchMulti(rt, m, smodel.T{Kind: smodel.KRef, Ref: d.Def}, v, mb, 0)
+		sc.Docs[i].JSON = string(rawOf(v))
+	}
+	return mb
+}
+
+// c14PatchMulti writes the discriminating field (and the shared constant) into
+// every value of the object with two builders.
+func c14PatchMulti(rt *rapid.T, m *smodel.Model, t smodel.T, v any, mb *c14Multi, depth int) {
+	if depth > 12 || v == nil {
+		return
+	}
+	isTarget := t.Kind == smodel.KRef && t.Ref == mb.Def
+	rt2 := m.Resolve(t)
+	if bt, ok := m.UnionBranch(rt2, v); ok {
+		isTarget = isTarget || (bt.Kind == smodel.KRef && bt.Ref == mb.Def)
+		rt2 = m.Resolve(bt)
+	}
+	switch rt2.Kind {
+	case smodel.KStruct:
+		obj, ok := v.(map[string]any)
+		if !ok {
+			return
+		}
+		if isTarget {
+			obj[mb.Field] = rapid.SampledFrom([]string{"first", "second"}).Draw(rt, "multivalue")
+			if mb.Shared {
+				obj["datasourceKind"] = "prom"
+			}
+		}
+		for _, f := range rt2.Fields {
+			if fv, present := obj[f.Name]; present {
+				c14PatchMulti(rt, m, f.Type, fv, mb, depth+1)
+			}
+		}
+	case smodel.KArray:
+		if list, ok := v.([]any); ok {
+			for _, e := range list {
+				c14PatchMulti(rt, m, *rt2.Elem, e, mb, depth+1)
+			}
+		}
+	case smodel.KMap:
+		if mm, ok := v.(map[string]any); ok {
+			for _, e := range mm {
+				c14PatchMulti(rt, m, *rt2.Elem, e, mb, depth+1)
+			}
+		}
+	}
 }
 
 // c14VeneerTag marks the cases whose veneers promote an optional field.
@@ -405,6 +547,7 @@ func TestC14(t *testing.T) {
 		"documents are valid by construction for the source schema; v is what Go decoded from them (its own encoding is the reference)",
 		"cog.Dump, which converters call and cog does not emit (listed under C02), is supplied from the repository's own testdata runtime",
 		"half of the schemas get veneers the converters must invert: scalar options (required and optional) promoted to constructor arguments, and lists of unions of structs exposed as one appending option per variant (array_to_append + disjunction_as_options)",
+		"half of those also get TWO BUILDERS FOR ONE OBJECT: an object other objects refer to (directly, in a list or in a map) gets a required string field queryMode (and, half of the time, a constant datasourceKind before it); its builder is duplicated twice and omitted, each copy's constructor writes its own queryMode (initialize veneer: first / second) and the queryMode option is omitted; every value of that object in the documents is given one of the two modes. The converter of the referring object must pick, per value, the builder whose constants the value matches: the rebuilt object differs otherwise",
 	)
 	if vlib.RunReplay(t, run, c14Check) {
 		return
@@ -419,7 +562,11 @@ func TestC14(t *testing.T) {
 			f := rapid.SampledFrom(smodel.Formats).Draw(rt, "format")
 			sc := drawSchemaCase(rt, c14GenConfig(f), 2)
 			if rapid.Bool().Draw(rt, "veneers") {
-				sc.Veneers = drawC14Veneers(rt, sc)
+				var multi *c14Multi
+				if rapid.Bool().Draw(rt, "twobuilders") {
+					multi = drawC14Multi(rt, &sc)
+				}
+				sc.Veneers = drawC14Veneers(rt, sc, multi)
 			}
 			cases = append(cases, sc)
 		}
@@ -436,6 +583,12 @@ func TestC14(t *testing.T) {
 				}
 				if strings.Contains(strings.Join(c.Veneers, ""), "promote_options_to_constructor") {
 					run.Label("veneer:promote_options_to_constructor")
+				}
+				if strings.Contains(strings.Join(c.Veneers, ""), "duplicate:") {
+					run.Label("veneer:two-builders-for-one-object")
+					if strings.Contains(c.source(), "datasourceKind") {
+						run.Label("veneer:two-builders-sharing-a-constant")
+					}
 				}
 			}
 			run.Label(c.Model.Features()...)
